@@ -9,6 +9,8 @@ namespace Rio.Html
 namespace Tokenizer
 open Rio.Consts
 
+local macro "tr" : tactic => `(tactic| first | trivial | rfl)
+
 /-- What `next` needs and re-establishes; also preserved by the accessors. -/
 structure Inv (t : Tokenizer) : Prop where
   raw : t.rawS ≤ t.rawE
@@ -63,6 +65,97 @@ theorem finishText_post (t x : Tokenizer) (a : Adv t x) (hr : t.rawS ≤ t.rawE)
 theorem Post.rebase {t u t' : Tokenizer} (hb : u.buf = t.buf) (hs : u.rawS = t.rawS) (p : Post u t') : Post t t' :=
   ⟨p.buf.trans hb, p.rawS.trans hs, p.inv, p.spans, p.progress⟩
 
+theorem markup_kind (t : Tokenizer) :
+    isTagLike (readMarkupDeclaration t).2 = false ∧ (readMarkupDeclaration t).2 ≠ .error := by
+  unfold readMarkupDeclaration markupGo markupRest
+  simp only
+  (repeat' split) <;> simp [isTagLike]
+
+theorem isTagLike_start {k : TokenType} (h : k = .startTag ∨ k = .selfClosing) : isTagLike k = true := by
+  rcases h with rfl | rfl <;> rfl
+
+theorem dispatchTag_post (b t2 : Tokenizer) (c : Nat) (a : Adv b t2) (h2 : b.rawE + 2 ≤ t2.rawE)
+    (hr : b.rawS ≤ b.rawE) (ht : TagOk b.rawTag) (hd : t2.dataS = b.rawS ∧ t2.dataE = b.rawS) :
+    Post b (dispatchTag t2 c) := by
+  unfold dispatchTag
+  simp only [htmlTagOpenLen]
+  have hle := a.ok.le
+  have hrs := a.rawS
+  have ht2 : TagOk t2.rawTag := by rw [a.rawTag]; exact ht
+  split
+  · omega
+  · split
+    · rename_i hx
+      refine ⟨a.buf, a.rawS, ⟨?_, ⟨?_, a.ok.panic, a.ok.hang, a.ok.utf8⟩, ht2⟩, ⟨?_, ?_, ?_, ?_⟩, ?_⟩
+      · simp only; omega
+      · simp only; omega
+      · simp only; omega
+      · simp
+      · simp [isTagLike]
+      · simp
+      · intro _; simp only; omega
+    · split
+      · -- start tag
+        have s := readStartTag_spec t2 a.ok (by omega) ht2
+        obtain ⟨s1, s2, s3, s4, s5, s6, s7⟩ := s
+        generalize t2.readStartTag = st at *
+        have a0 : Adv0 b st.1 := ⟨s1.buf.trans a.buf, s1.rawS.trans a.rawS, Nat.le_trans a.mono s1.mono,
+          ⟨s1.ok.le, s1.ok.panic, s1.ok.hang, s1.ok.utf8⟩⟩
+        have hm : t2.rawE ≤ st.1.rawE := s1.mono
+        exact post_leaf b st.1 st.2 a0 hr s2 (by omega) s5 (by intro _; omega) (fun _ => ⟨s6, s7⟩)
+          (by intro _; omega)
+      · split
+        · -- `</`
+          have a3 := a.trans (readByte_adv a.ok)
+          split
+          · exact finishText_post b _ a3 hr ht (by simpa using hd)
+          · rename_i herr3
+            have e3 := readByte_succ herr3
+            split
+            · exact post_leaf b _ .comment a3.to0 hr (by rw [a3.rawTag]; exact ht) (by simp [hd])
+                (by have := a3.mono; simp [hd]; omega) (by simp [isTagLike]) (by simp) (by intro _; have := a3.mono; omega)
+            · split
+              · -- end tag
+                have a4 := readTag_adv t2.readByte.1 false a3.ok (by omega)
+                have s4 := readTag_spec t2.readByte.1 false a3.ok (by omega)
+                have a34 := a3.trans a4
+                generalize t2.readByte.1.readTag false = t4 at *
+                have hm := a4.mono
+                split
+                · exact post_leaf b t4 .error a34.to0 hr (by rw [a34.rawTag]; exact ht) (by omega) s4.2.2.1
+                    (by simp [isTagLike]) (by simp) (by simp)
+                · exact post_leaf b t4 .endTag a34.to0 hr (by rw [a34.rawTag]; exact ht) (by omega) s4.2.2.1
+                    (by intro _; omega) (by simp) (by intro _; have := a34.mono; omega)
+              · -- bogus comment `</x ... >`
+                have a4 := a.trans (read_unread_adv a.ok herr3)
+                have a5 := a4.trans (readUntilCloseAngle_adv _ a4.ok)
+                have d5 := readUntilCloseAngle_data _ a4.ok
+                have hu := unread_rawE_eq (t := t2.readByte.1) 1 (by omega)
+                have hm5 := (readUntilCloseAngle_adv _ a4.ok).mono
+                generalize (t2.readByte.1.unread 1).readUntilCloseAngle = t5 at *
+                exact post_leaf b t5 .comment a5.to0 hr (by rw [a5.rawTag]; exact ht) d5.2.1 d5.2.2
+                  (by simp [isTagLike]) (by simp) (by intro _; omega)
+        · split
+          · -- `<!`
+            have am := readMarkupDeclaration_adv t2 a.ok (by omega)
+            have dm := readMarkupDeclaration_data t2 a.ok (by omega)
+            have km := markup_kind t2
+            have a5 := a.trans am
+            generalize t2.readMarkupDeclaration = m at *
+            exact post_leaf b m.1 m.2 a5.to0 hr (by rw [a5.rawTag]; exact ht) dm.1 dm.2
+              (by intro hk; rw [km.1] at hk; cases hk)
+              (by intro hk; have := isTagLike_start hk; rw [km.1] at this; cases this)
+              (by intro _; have := am.mono; omega)
+          · -- `<?`
+            have a4 := unread_adv 1 a (by omega)
+            have a5 := a4.trans (readUntilCloseAngle_adv _ a4.ok)
+            have d5 := readUntilCloseAngle_data _ a4.ok
+            have hu := unread_rawE_eq (t := t2) 1 (by omega)
+            generalize (t2.unread 1).readUntilCloseAngle = t5 at *
+            exact post_leaf b t5 .comment a5.to0 hr (by rw [a5.rawTag]; exact ht) d5.2.1 d5.2.2
+              (by simp [isTagLike]) (by simp)
+              (by intro _; have := (readUntilCloseAngle_adv _ a4.ok).mono; omega)
+
 theorem mainLoop_post (t : Tokenizer) (h : Ok t) (hr : t.rawS ≤ t.rawE) (ht : TagOk t.rawTag)
     (hd : t.dataS = t.rawS ∧ t.dataE = t.rawS) : Post t (mainLoop t) := by
   fun_induction mainLoop t
@@ -80,8 +173,219 @@ theorem mainLoop_post (t : Tokenizer) (h : Ok t) (hr : t.rawS ≤ t.rawE) (ht : 
     have a2 := a1.trans (read_unread_adv a1.ok (by assumption))
     exact (ih a2.ok (by have := a2.mono; rw [a2.rawS]; omega) (by rw [a2.rawTag]; exact ht)
       (by simp [a2.rawS, hd])).rebase a2.buf a2.rawS
-  all_goals trace_state
-  all_goals sorry
+  case case5 t _ herr1 _ _ herr2 _ =>
+    have a1 := readByte_adv h
+    have a2 := readByte_adv a1.ok
+    have e1 := readByte_succ herr1
+    have e2 := readByte_succ herr2
+    exact dispatchTag_post t _ _ (a1.trans a2) (by omega) hr ht (by simpa using hd)
+
+/-- `read_raw_or_cdata` -/
+theorem readRawOrCdata_spec (t : Tokenizer) (h : Ok t) (ht : TagOk t.rawTag) :
+    Adv0 t (readRawOrCdata t) ∧ (readRawOrCdata t).rawTag = [] ∧
+    (readRawOrCdata t).dataS = t.dataS ∧ (readRawOrCdata t).dataE = (readRawOrCdata t).rawE := by
+  unfold readRawOrCdata
+  split
+  · rename_i hs
+    have hs' : t.rawTag = htmlScript := by simpa using hs
+    unfold readScript
+    have a := scriptGo_adv .data t t (Adv.refl h) (by simp [SS.need]) hs'
+    have d := scriptGo_data .data t
+    simp only
+    generalize scriptGo SS.data t = t1 at *
+    refine ⟨⟨a.buf, a.rawS, a.mono, ⟨a.ok.le, a.ok.panic, a.ok.hang, a.ok.utf8⟩⟩, ?_, ?_, ?_⟩ <;> simp [d.1]
+  · have a := rawTextGo_adv t h ht
+    have d := rawTextGo_data t
+    simp only
+    generalize rawTextGo t = t1 at *
+    refine ⟨⟨a.buf, a.rawS, a.mono, ⟨a.ok.le, a.ok.panic, a.ok.hang, a.ok.utf8⟩⟩, ?_, ?_, ?_⟩ <;> simp [d.1]
+
+theorem TagOk_nil : TagOk [] := by intro c hc; cases hc
+
+/-- The specification of `next` after its three initial span assignments. -/
+theorem nextGo_post (t0 : Tokenizer) (hok : Ok t0) (hrs : t0.rawS = t0.rawE) (hds : t0.dataS = t0.rawS)
+    (hde : t0.dataE = t0.rawS) (htg : TagOk t0.rawTag) : Post t0 (nextGo t0) := by
+  unfold nextGo
+  simp only
+  -- the continuation: the main loop
+  have cont : ∀ t1 : Tokenizer, Adv0 t0 t1 → TagOk t1.rawTag → t1.dataS = t0.rawS → t1.dataE = t0.rawS →
+      Post t0 (mainLoop { t1 with textIsRaw := false, convertNull := false }) := by
+    intro t1 a htag d1 d2
+    have ok1 : Ok ({ t1 with textIsRaw := false, convertNull := false } : Tokenizer) :=
+      ⟨a.ok.le, a.ok.panic, a.ok.hang, a.ok.utf8⟩
+    have := mainLoop_post { t1 with textIsRaw := false, convertNull := false } ok1
+      (by have := a.rawS; have := a.mono; simp only; omega) htag (by simp only [d1, d2, a.rawS]; exact ⟨trivial, trivial⟩)
+    exact Post.rebase (u := { t1 with textIsRaw := false, convertNull := false }) a.buf a.rawS this
+  split
+  · -- `self.err.is_some()`
+    exact post_leaf t0 t0 .error ⟨rfl, rfl, Nat.le_refl _, hok⟩ (by omega) htg (by omega) (by omega)
+      (by simp [isTagLike]) (by simp) (by simp)
+  · split
+    · -- raw text context
+      have key : ∀ t1 : Tokenizer, Adv0 t0 t1 → TagOk t1.rawTag → t1.dataS = t0.rawS → t1.dataE = t1.rawE →
+          Post t0 (if t1.dataE > t1.dataS then { t1 with token := .text, convertNull := true }
+            else mainLoop { t1 with textIsRaw := false, convertNull := false }) := by
+        intro t1 a htag d1 d2
+        split
+        · rename_i hgt
+          have a' : Adv0 t0 { t1 with convertNull := true } := ⟨a.buf, a.rawS, a.mono, ⟨a.ok.le, a.ok.panic, a.ok.hang, a.ok.utf8⟩⟩
+          exact post_leaf t0 { t1 with convertNull := true } .text a' (by omega) htag (by simp only; omega)
+            (by simp only; omega) (by simp [isTagLike]) (by simp) (by intro _; simp only; omega)
+        · rename_i hgt
+          have hm := a.mono
+          exact cont t1 a htag d1 (by omega)
+      split
+      · -- plaintext
+        have a := readToEnd_adv t0 hok
+        have d := readToEnd_data t0
+        generalize t0.readToEnd = t1 at *
+        have a' : Adv0 t0 { t1 with dataE := t1.rawE, textIsRaw := true } :=
+          ⟨a.buf, a.rawS, a.mono, ⟨a.ok.le, a.ok.panic, a.ok.hang, a.ok.utf8⟩⟩
+        exact key { t1 with dataE := t1.rawE, textIsRaw := true } a' (by simp only [a.rawTag]; exact htg)
+          (by simp only [d.1, hds]) rfl
+      · have s := readRawOrCdata_spec t0 hok htg
+        generalize t0.readRawOrCdata = t1 at *
+        exact key t1 s.1 (by rw [s.2.1]; exact TagOk_nil) (by rw [s.2.2.1, hds]) s.2.2.2
+    · exact cont t0 ⟨rfl, rfl, Nat.le_refl _, hok⟩ htg hds hde
+
+/-- The specification of one call of `next`. -/
+theorem next_post (t : Tokenizer) (h : Inv t) :
+    Post { t with rawS := t.rawE, dataS := t.rawE, dataE := t.rawE } (next t) :=
+  nextGo_post _ ⟨h.ok.le, h.ok.panic, h.ok.hang, h.ok.utf8⟩ rfl rfl rfl h.tag
+
+/-! ### iterating `next` -/
+
+/-- the state after `n` calls of `next()` (accessors are not called in between; see `accessor_*` for
+why calling them does not matter for the raw spans) -/
+def nexts : Nat → Tokenizer → Tokenizer
+  | 0, t => t
+  | n + 1, t => next (nexts n t)
+
+/-- bytes of the raw span / of the unread remainder, as total functions -/
+def rawL (t : Tokenizer) : List Nat := (t.buf.extract t.rawS t.rawE).toList
+def restL (t : Tokenizer) : List Nat := (t.buf.extract t.rawE t.buf.size).toList
+def dataL (t : Tokenizer) : List Nat := (t.buf.extract t.dataS t.dataE).toList
+
+theorem next_inv' (t : Tokenizer) (h : Inv t) : Inv (next t) := (next_post t h).inv
+theorem next_buf' (t : Tokenizer) (h : Inv t) : (next t).buf = t.buf := (next_post t h).buf
+theorem next_rawS' (t : Tokenizer) (h : Inv t) : (next t).rawS = t.rawE := (next_post t h).rawS
+
+theorem nexts_inv (n : Nat) (t : Tokenizer) (h : Inv t) : Inv (nexts n t) := by
+  induction n with
+  | zero => exact h
+  | succ n ih => exact next_inv' _ ih
+
+theorem nexts_buf (n : Nat) (t : Tokenizer) (h : Inv t) : (nexts n t).buf = t.buf := by
+  induction n with
+  | zero => rfl
+  | succ n ih => exact (next_buf' _ (nexts_inv n t h)).trans ih
+
+theorem extract_split (a : Array Nat) (i j k : Nat) (h1 : i ≤ j) (h2 : j ≤ k) :
+    (a.extract i k).toList = (a.extract i j).toList ++ (a.extract j k).toList := by
+  have := Array.extract_append_extract (as := a) (i := i) (j := j) (k := k)
+  rw [Nat.min_eq_left h1, Nat.max_eq_right h2] at this
+  rw [← this, Array.toList_append]
+
+/-- the bytes consumed after `n` calls are the concatenation of the `n` raw spans -/
+theorem consumed_eq (n : Nat) (t : Tokenizer) (h : Inv t) :
+    (t.buf.extract t.rawE (nexts n t).rawE).toList =
+      ((List.range n).map fun i => rawL (nexts (i + 1) t)).flatten ∧ t.rawE ≤ (nexts n t).rawE := by
+  induction n with
+  | zero => simp [nexts]
+  | succ n ih =>
+    have hi := nexts_inv n t h
+    have hs : (nexts (n + 1) t).rawS = (nexts n t).rawE := next_rawS' _ hi
+    have hr := (nexts_inv (n + 1) t h).raw
+    have hb := nexts_buf (n + 1) t h
+    rw [List.range_succ, List.map_append, List.flatten_append, ← ih.1]
+    refine ⟨?_, by omega⟩
+    rw [extract_split t.buf t.rawE (nexts n t).rawE (nexts (n + 1) t).rawE ih.2 (by omega)]
+    simp [rawL, hs, hb]
+
+theorem nexts_progress (n : Nat) (t : Tokenizer) (h : Inv t)
+    (hne : ∀ i, i < n → (nexts (i + 1) t).token ≠ .error) : t.rawE + n ≤ (nexts n t).rawE := by
+  induction n with
+  | zero => simp [nexts]
+  | succ n ih =>
+    have hi := nexts_inv n t h
+    have hs : (nexts (n + 1) t).rawS = (nexts n t).rawE := next_rawS' _ hi
+    have hp := (next_post _ hi).progress (hne n (Nat.lt_succ_self n))
+    have := ih (fun i hi' => hne i (Nat.lt_succ_of_lt hi'))
+    have hs' : (nexts n t).next.rawS = (nexts n t).rawE := hs
+    simp only [nexts]
+    omega
+
+/-! ### accessors -/
+
+theorem slice?_eq (t : Tokenizer) (a b : Nat) (h1 : a ≤ b) (h2 : b ≤ t.buf.size) :
+    t.slice? a b = some (t.buf.extract a b).toList := by
+  unfold slice?; simp [h1, h2]
+
+theorem raw_eq (t : Tokenizer) (h : Inv t) : t.raw = some (rawL t) :=
+  slice?_eq t _ _ h.raw h.ok.le
+
+theorem buffered_eq (t : Tokenizer) (h : Inv t) : t.buffered = some (restL t) :=
+  slice?_eq t _ _ h.ok.le (Nat.le_refl _)
+
+theorem text_spec (t : Tokenizer) (h : Inv t) (s : Spans t) (hk : isTextLike t.token = true) :
+    (text t).1 = (if validUtf8 (dataL t) then
+        .ok (some (if t.convertNull || (t.token == .text && (dataL t).contains 0) then replaceNul (dataL t) else dataL t))
+      else .utf8Err) ∧ Inv (text t).2 := by
+  unfold text
+  have hs := slice?_eq t t.dataS t.dataE s.dataLo (Nat.le_trans s.dataHi h.ok.le)
+  simp only [hk, if_true, hs, dataL]
+  by_cases hv : validUtf8 (t.buf.extract t.dataS t.dataE).toList = true
+  · simp only [hv, Bool.not_true, Bool.false_eq_true, if_false, if_true]
+    exact ⟨by tr, h.raw, ⟨h.ok.le, h.ok.panic, h.ok.hang, h.ok.utf8⟩, h.tag⟩
+  · simp only [Bool.not_eq_true] at hv
+    simp only [hv, Bool.not_false, if_true, Bool.false_eq_true, if_false]
+    exact ⟨by tr, h⟩
+
+theorem tagName_spec (t : Tokenizer) (h : Inv t) (s : Spans t) (hk : isTagLike t.token = true) :
+    (tagName t).1 = (if validUtf8 (dataL t) then
+        .ok (some ((dataL t).map lowerByte), decide (t.nAttrRet < t.attrs.size)) else .utf8Err) ∧
+    Inv (tagName t).2 ∧ (tagName t).2.attrs = t.attrs ∧ (tagName t).2.nAttrRet = t.nAttrRet ∧
+    (tagName t).2.token = t.token ∧ (tagName t).2.buf = t.buf := by
+  unfold tagName
+  have hs := slice?_eq t t.dataS t.dataE s.dataLo (Nat.le_trans s.dataHi h.ok.le)
+  have hlt := s.tagData hk
+  simp only [hk, hlt, decide_true, Bool.and_self, if_true, hs, dataL]
+  by_cases hv : validUtf8 (t.buf.extract t.dataS t.dataE).toList = true
+  · simp only [hv, Bool.not_true, Bool.false_eq_true, if_false, if_true]
+    exact ⟨by tr, ⟨h.raw, ⟨h.ok.le, h.ok.panic, h.ok.hang, h.ok.utf8⟩, h.tag⟩, by tr, by tr, by tr, by tr⟩
+  · simp only [Bool.not_eq_true] at hv
+    simp only [hv, Bool.not_false, if_true, Bool.false_eq_true, if_false]
+    exact ⟨by tr, h, by tr, by tr, by tr, by tr⟩
+
+theorem tagAttr_spec (t : Tokenizer) (h : Inv t) (ha : AttrsOk t) :
+    (tagAttr t).1 ≠ .panic ∧ Inv (tagAttr t).2 ∧ AttrsOk (tagAttr t).2 ∧
+    (tagAttr t).2.token = t.token ∧
+    (∀ (hi : t.nAttrRet < t.attrs.size), (t.token = .startTag ∨ t.token = .selfClosing) →
+      validUtf8 (t.buf.extract t.attrs[t.nAttrRet].ks t.attrs[t.nAttrRet].ke).toList = true →
+      validUtf8 (t.buf.extract t.attrs[t.nAttrRet].vs t.attrs[t.nAttrRet].ve).toList = true →
+      (tagAttr t).1 = .ok (some ((t.buf.extract t.attrs[t.nAttrRet].ks t.attrs[t.nAttrRet].ke).toList.map lowerByte),
+        some (t.buf.extract t.attrs[t.nAttrRet].vs t.attrs[t.nAttrRet].ve).toList,
+        decide (t.nAttrRet + 1 < t.attrs.size))) := by
+  unfold tagAttr
+  split
+  · rename_i hi
+    have hmem := ha t.attrs[t.nAttrRet] (by simp)
+    have hk := slice?_eq t _ _ hmem.1 hmem.2.1
+    have hv := slice?_eq t _ _ hmem.2.2.1 hmem.2.2.2
+    have inv' : Inv { t with nAttrRet := t.nAttrRet + 1 } :=
+      ⟨h.raw, ⟨h.ok.le, h.ok.panic, h.ok.hang, h.ok.utf8⟩, h.tag⟩
+    have ha' : AttrsOk { t with nAttrRet := t.nAttrRet + 1 } := ha
+    split
+    · simp only [hk, hv]
+      split
+      · exact ⟨by simp, inv', ha', rfl, fun _ _ hu => by simp_all⟩
+      · split
+        · exact ⟨by simp, inv', ha', rfl, fun _ _ _ hu => by simp_all⟩
+        · refine ⟨by simp, inv', ha', rfl, fun _ _ _ _ => rfl⟩
+    · rename_i hnk
+      exact ⟨by simp, h, ha, rfl, fun _ hk' => by simp at hnk; rcases hk' with e | e <;> simp [e] at hnk⟩
+  · rename_i hi
+    exact ⟨by simp, h, ha, rfl, fun hi' => absurd hi' hi⟩
 
 end Tokenizer
 end Rio.Html
